@@ -310,7 +310,7 @@ func ruleStr(g *ref.Grammar, r int) string {
 func init() {
 	Register(&Checker{
 		ID: "C09", Level: "exploration", Engine: "A",
-		Rule:     "case = (grammar, layout, K map-order schedules); grammars: 26 textbook separators + renamed/permuted/embedded variants, family FX (all grammars with <=2 nonterminals, <=2 terminals, <=3 rules, rhs<=2; sampled in quick, all in thorough), random CFGs (<=7 nonterminals, <=6 terminals, rhs<=5) kept when the reference finds them usable. distinct_nontrivial = distinct grammars (hash of the abstract rule list) whose canonical collection has more than one state.",
+		Rule:     "case = (grammar, layout, K map-order schedules); grammars: 26 textbook separators + renamed/permuted/embedded variants, family FX (all grammars with <=2 nonterminals, <=2 terminals, <=3 rules, rhs<=2; sampled in quick, all in thorough), random CFGs (<=7 nonterminals, <=6 terminals, rhs<=5) kept when the reference finds them usable. distinct_nontrivial = distinct grammars (hash of the abstract rule list, precedence declarations and start symbol) whose automaton was compared under at least one schedule.",
 		NumCases: func(ctx *Ctx) int { return autoCases(ctx, 5000, 30000) },
 		Gen:      genAutoCase(false, 3, 8),
 		Exec:     execC09,
